@@ -317,7 +317,7 @@ def newgame_case(run):
     env = UL.Env(ex, [], False)
     UL.install(ex, env)
     st = State()
-    up = ex.alloc(st, UL.uci_value('none'))
+    up = ex.alloc(st, UL.uci_value('none', run, ex, st))
     callee = [n for n, it in run.prog.items.items() if it.kind == 'fn' and n.startswith('uci::<impl') and n.endswith('::execute_command')][0]
     cmd = Enum(2, {2: ()})
     r = ex.call(callee, [up, cmd], ['&mut uci::Uci', 'uci::uci_command::UCICommand'], 'std::result::Result<(), std::string::String>', st, 'harness')
